@@ -130,6 +130,12 @@ fn module<M: World>(report: &Report, ctr: &Ctr, tier: Tier, seed: u64) {
                 server_case::<M>(report, ctr, user, key, ss.wrapping_add(1), proof, cseed, "server-seed+1");
                 server_case::<M>(report, ctr, user, key, ss.wrapping_sub(1), proof, cseed, "server-seed-1");
                 server_case::<M>(report, ctr, user, key, ss, proof, cseed.swap_bytes(), "client-seed-byte-swapped");
+                if (cs == 0xFFFF_FFFF || cs == 0 || cs == 0xDEAD_BEEF) && (ss == 0xFFFF_FFFF || ss == 0 || ss == 0x0102_0304) {
+                    for bit in 0..32 {
+                        server_case::<M>(report, ctr, user, key, ss, proof, cseed ^ (1 << bit), "client-seed-bit-flipped");
+                        server_case::<M>(report, ctr, user, key, ss ^ (1 << bit), proof, cseed, "server-seed-bit-flipped");
+                    }
+                }
                 if full {
                     for alt in ["B", "alicf", "0123456789ABCDEG", "A;", "a", "ALICE"] {
                         if alt.len() <= 16 {
